@@ -176,6 +176,20 @@ def case_model_fix(ctx, r, B):
             chain.append((order.index(v), a))
             order.remove(v)
         B.chains.append((cur, chain, model_canon(nmod, list(nmod.variables)), site, ic, list(R.lines[4:])))
+        # the same through the labelled model of the mixin code (label lookups, order of the pairs, vartype/bounds table)
+        if cls == 'QM':
+            info = ','.join(f'{m.vartype(v).name}~{rat(F(m.lower_bound(v)))}~{rat(F(m.upper_bound(v)))}' for v in m.variables) or '-'
+            exp_info = ','.join(f'{nmod.vartype(v).name}~{rat(F(nmod.lower_bound(v)))}~{rat(F(nmod.upper_bound(v)))}' for v in nmod.variables) or '-'
+        else:
+            info = exp_info = '-'
+        exp_c = model_canon(nmod, list(nmod.variables))
+        exp_l = labs(nmod.variables)
+
+        def same(g, exp_c=exp_c, exp_l=exp_l, exp_info=exp_info):
+            p_ = g.split(' ')
+            return p_[0] == 'ok' and qmb_canon(*parse_qmb(p_[1])) == exp_c and p_[2] == exp_info and p_[3] == exp_l
+        B.add(f'qmfixl {l} {a_} {o} {info} {labs(m.variables)} {items_tok(fixed)}', '', site + ' vs QuadraticViewsMixin model', ic,
+              'fix_variable(s) by label', detail=dict(script=R.lines[4:]), on_mismatch=same)
 
 
 def flush_chains(ctx, B):
@@ -244,6 +258,10 @@ def case_cqm_fix(ctx, r, B):
     rest = [v for v in c.variables if v not in dict(fixed)]
     exprs = [('objective', lambda q: q.objective)] + [(f'constraint {lbl!r}', (lambda q, lbl=lbl: q.constraints[lbl].lhs)) for lbl in c.constraint_labels]
     selfloop = any(u == v and u in dict(fixed) for _, get in exprs for u, v, _ in get(c).iter_quadratic())
+    _mi = {v: i for i, v in enumerate(c.variables)}
+    if any([_mi[v] for v in get(c).variables] != list(range(len(get(c).variables))) and any(v in dict(fixed) for v in get(c).variables)
+           for _, get in exprs):
+        ctx.tick('CQM fix: expression whose local variable order differs from the model order, a variable of it fixed')
     partial = any(0 < sum(1 for v in get(c).variables if v in dict(fixed)) for _, get in exprs) and any(
         any(v not in get(c).variables for v, _ in fixed) for _, get in exprs)
     allfixed = any(len(get(c).variables) and all(v in dict(fixed) for v in get(c).variables) for _, get in exprs)
